@@ -658,3 +658,10 @@ for _p, (_base, _what, _exp) in _R9.items():
     _m = mut("s9-" + _base.lower(), _what, [], _exp)
     _m["base"] = _base
     MUTANTS.setdefault(_p, []).append(_m)
+
+# on top of the small edit sm-u3 (period check in the parser, row loop in a helper): the rules must still see both halves
+MUTANTS.setdefault("C08", []).extend([
+    on("neutral-sm-u3", mut("sm-u3", "behaviour-preserving: rate rows built in a helper called after the period check", [], neutral=True)),
+    on("neutral-sm-u3", mut("sm-u3+zero-rate-allowed", "the helper rejects only negative rates", [(MPARSER, "        if rate_decimal <= Decimal::ZERO {", "        if rate_decimal < Decimal::ZERO {")], ["R7:rate:positive"])),
+    on("neutral-sm-u3", mut("sm-u3+month-unchecked", "the parser compares only the year with the expected period", [(MPARSER, "        && (year != expected_year || month != expected_month)", "        && year != expected_year")], ["R7:period:month"])),
+])
